@@ -213,6 +213,10 @@ pub fn run(case: &Value, ctx: &Ctx) -> Outcome {
                 "dup_same_label" => (Some("a=A,a=A,b=B"), None),
                 "dup_diff_label" => (Some("a=A,a=B"), None),
                 "dup_unnamed_named" => (Some("a,a=B,b"), None),
+                "dup_new_then_new" => (Some("a=A,a=B,b=C"), None),
+                "dup_new_then_old" => (Some("a=A,a=B,b=B,c=A"), None),
+                "dup_unnamed_then_new" => (Some("a,a=B,b=C,c"), None),
+                "dup_twice_then_new" => (None, Some("a\tA\na\tB\na\tC\nb\tD\nc\tE\n")),
                 "unknown" => (Some("a=A,zzz=B"), None),
                 "empty_arg" => (Some(""), None),
                 "empty_file" => (None, Some("")),
